@@ -33,6 +33,33 @@ theorem Span.sub {rd wr : Nat → Bool} {p n : Nat} {w : Bool} (h : Span rd wr p
   · intro i hi; have := h.readable (k + i) (by omega); rwa [show p + 4 * (k + i) = p + 4 * k + 4 * i by omega] at this
   · intro hw i hi; have := h.writable hw (k + i) (by omega); rwa [show p + 4 * (k + i) = p + 4 * k + 4 * i by omega] at this
 
+theorem Span.lt_k {rd wr : Nat → Bool} {p n : Nat} {w : Bool} (h : Span rd wr p n w) (k : Nat) (hk : k + 4 ≤ 4 * n) : p + k < 2 ^ 32 := by
+  have := h.fits; omega
+theorem Span.al_k {rd wr : Nat → Bool} {p n : Nat} {w : Bool} (h : Span rd wr p n w) (k : Nat) (hk : k % 4 = 0) : (p + k) % 4 = 0 := by
+  have := h.aligned; omega
+theorem Span.rd_k {rd wr : Nat → Bool} {p n : Nat} {w : Bool} (h : Span rd wr p n w) (k : Nat) (hk : k % 4 = 0) (hk2 : k + 4 ≤ 4 * n) :
+    rd (p + k) = true := by
+  have := h.readable (k / 4) (by omega); rwa [show p + 4 * (k / 4) = p + k by omega] at this
+theorem Span.wr_k {rd wr : Nat → Bool} {p n : Nat} (h : Span rd wr p n true) (k : Nat) (hk : k % 4 = 0) (hk2 : k + 4 ≤ 4 * n) :
+    wr (p + k) = true := by
+  have := h.writable rfl (k / 4) (by omega); rwa [show p + 4 * (k / 4) = p + k by omega] at this
+theorem Span.lt_0 {rd wr : Nat → Bool} {p n : Nat} {w : Bool} (h : Span rd wr p n w) (hn : 0 < n) : p < 2 ^ 32 := by
+  have := h.fits; omega
+theorem Span.rd_0 {rd wr : Nat → Bool} {p n : Nat} {w : Bool} (h : Span rd wr p n w) (hn : 0 < n) : rd p = true := by
+  have := h.readable 0 hn; simpa using this
+theorem Span.wr_0 {rd wr : Nat → Bool} {p n : Nat} (h : Span rd wr p n true) (hn : 0 < n) : wr p = true := by
+  have := h.writable rfl 0 hn; simpa using this
+theorem Span.lt_k2 {rd wr : Nat → Bool} {b c n : Nat} {w : Bool} (h : Span rd wr (b + c) n w) (k : Nat) (hk : k + 4 ≤ 4 * n) : b + (c + k) < 2 ^ 32 := by
+  have := h.lt_k k hk; omega
+theorem Span.al_k2 {rd wr : Nat → Bool} {b c n : Nat} {w : Bool} (h : Span rd wr (b + c) n w) (k : Nat) (hk : k % 4 = 0) : (b + (c + k)) % 4 = 0 := by
+  have := h.al_k k hk; omega
+theorem Span.rd_k2 {rd wr : Nat → Bool} {b c n : Nat} {w : Bool} (h : Span rd wr (b + c) n w) (k : Nat) (hk : k % 4 = 0) (hk2 : k + 4 ≤ 4 * n) :
+    rd (b + (c + k)) = true := by
+  have := h.rd_k k hk hk2; rwa [Nat.add_assoc] at this
+theorem Span.wr_k2 {rd wr : Nat → Bool} {b c n : Nat} (h : Span rd wr (b + c) n true) (k : Nat) (hk : k % 4 = 0) (hk2 : k + 4 ≤ 4 * n) :
+    wr (b + (c + k)) = true := by
+  have := h.wr_k k hk hk2; rwa [Nat.add_assoc] at this
+
 theorem Span.weaken {rd wr : Nat → Bool} {p n : Nat} {w : Bool} (h : Span rd wr p n w) : Span rd wr p n false :=
   ⟨h.fits, h.aligned, h.readable, fun hw => by cases hw⟩
 
@@ -69,7 +96,6 @@ theorem limbs32_add (m : Nat → Word) (p n k : Nat) : limbs32 m p (n + k) = lim
   rw [show p + 4 * (n + i) = p + 4 * n + 4 * i by omega]
 
 set_option exponentiation.threshold 500
-set_option profiler true
 
 set_option maxHeartbeats 1600000 in
 /-- row 0 of `multiply768`: `tmp[0..13) := a[0]·b` (whatever was in `tmp`) -/
@@ -82,97 +108,97 @@ theorem mulRow0_run (r0 r1 r2 r3 r4 r5 r6 r7 r8 r9 r10 r11 r12 sp lr : Word) (nf
         = ⟨x0, r1, r2, x3, x4, x5, x6, x7, r8, r9, m (r1.toNat), r11, r12, sp, lr, n, z, c, v, m', rd, wr, pc + 265, .running, csm⟩ ∧
       (∀ k, ¬(sp.toNat ≤ k ∧ k < sp.toNat + 52) → m' k = m k) ∧
       val (2 ^ 32) (limbs32 m' (sp.toNat) 13) = (m (r1.toNat)).toNat * val (2 ^ 32) (limbs32 m r2.toNat 12) := by
-  have a_lt : r1.toNat < 2 ^ 32 := by have := ha.fits; omega
+  have a_lt : r1.toNat < 2 ^ 32 := ha.lt_0 (by decide)
   have a_al : (r1.toNat) % 4 = 0 := ha.aligned
-  have a_rd : rd (r1.toNat) = true := by have := ha.readable 0 (by omega); simpa using this
-  have b_lt0 : r2.toNat < 2 ^ 32 := by have := hb.fits; omega
-  have b_al0 : (r2.toNat) % 4 = 0 := by have := hb.aligned; omega
-  have b_rd0 : rd (r2.toNat) = true := by have := hb.readable 0 (by omega); simpa using this
-  have b_lt1 : r2.toNat + 4 < 2 ^ 32 := by have := hb.fits; omega
-  have b_al1 : (r2.toNat + 4) % 4 = 0 := by have := hb.aligned; omega
-  have b_rd1 : rd (r2.toNat + 4) = true := by have := hb.readable 1 (by omega); simpa using this
-  have b_lt2 : r2.toNat + 8 < 2 ^ 32 := by have := hb.fits; omega
-  have b_al2 : (r2.toNat + 8) % 4 = 0 := by have := hb.aligned; omega
-  have b_rd2 : rd (r2.toNat + 8) = true := by have := hb.readable 2 (by omega); simpa using this
-  have b_lt3 : r2.toNat + 12 < 2 ^ 32 := by have := hb.fits; omega
-  have b_al3 : (r2.toNat + 12) % 4 = 0 := by have := hb.aligned; omega
-  have b_rd3 : rd (r2.toNat + 12) = true := by have := hb.readable 3 (by omega); simpa using this
-  have b_lt4 : r2.toNat + 16 < 2 ^ 32 := by have := hb.fits; omega
-  have b_al4 : (r2.toNat + 16) % 4 = 0 := by have := hb.aligned; omega
-  have b_rd4 : rd (r2.toNat + 16) = true := by have := hb.readable 4 (by omega); simpa using this
-  have b_lt5 : r2.toNat + 20 < 2 ^ 32 := by have := hb.fits; omega
-  have b_al5 : (r2.toNat + 20) % 4 = 0 := by have := hb.aligned; omega
-  have b_rd5 : rd (r2.toNat + 20) = true := by have := hb.readable 5 (by omega); simpa using this
-  have b_lt6 : r2.toNat + 24 < 2 ^ 32 := by have := hb.fits; omega
-  have b_al6 : (r2.toNat + 24) % 4 = 0 := by have := hb.aligned; omega
-  have b_rd6 : rd (r2.toNat + 24) = true := by have := hb.readable 6 (by omega); simpa using this
-  have b_lt7 : r2.toNat + 28 < 2 ^ 32 := by have := hb.fits; omega
-  have b_al7 : (r2.toNat + 28) % 4 = 0 := by have := hb.aligned; omega
-  have b_rd7 : rd (r2.toNat + 28) = true := by have := hb.readable 7 (by omega); simpa using this
-  have b_lt8 : r2.toNat + 32 < 2 ^ 32 := by have := hb.fits; omega
-  have b_al8 : (r2.toNat + 32) % 4 = 0 := by have := hb.aligned; omega
-  have b_rd8 : rd (r2.toNat + 32) = true := by have := hb.readable 8 (by omega); simpa using this
-  have b_lt9 : r2.toNat + 36 < 2 ^ 32 := by have := hb.fits; omega
-  have b_al9 : (r2.toNat + 36) % 4 = 0 := by have := hb.aligned; omega
-  have b_rd9 : rd (r2.toNat + 36) = true := by have := hb.readable 9 (by omega); simpa using this
-  have b_lt10 : r2.toNat + 40 < 2 ^ 32 := by have := hb.fits; omega
-  have b_al10 : (r2.toNat + 40) % 4 = 0 := by have := hb.aligned; omega
-  have b_rd10 : rd (r2.toNat + 40) = true := by have := hb.readable 10 (by omega); simpa using this
-  have b_lt11 : r2.toNat + 44 < 2 ^ 32 := by have := hb.fits; omega
-  have b_al11 : (r2.toNat + 44) % 4 = 0 := by have := hb.aligned; omega
-  have b_rd11 : rd (r2.toNat + 44) = true := by have := hb.readable 11 (by omega); simpa using this
-  have t_lt0 : sp.toNat < 2 ^ 32 := by have := ht.fits; omega
-  have t_al0 : (sp.toNat) % 4 = 0 := by have := ht.aligned; omega
-  have t_rd0 : rd (sp.toNat) = true := by have := ht.readable 0 (by omega); simpa using this
-  have t_wr0 : wr (sp.toNat) = true := by have := ht.writable rfl 0 (by omega); simpa using this
-  have t_lt1 : sp.toNat + 4 < 2 ^ 32 := by have := ht.fits; omega
-  have t_al1 : (sp.toNat + 4) % 4 = 0 := by have := ht.aligned; omega
-  have t_rd1 : rd (sp.toNat + 4) = true := by have := ht.readable 1 (by omega); simpa using this
-  have t_wr1 : wr (sp.toNat + 4) = true := by have := ht.writable rfl 1 (by omega); simpa using this
-  have t_lt2 : sp.toNat + 8 < 2 ^ 32 := by have := ht.fits; omega
-  have t_al2 : (sp.toNat + 8) % 4 = 0 := by have := ht.aligned; omega
-  have t_rd2 : rd (sp.toNat + 8) = true := by have := ht.readable 2 (by omega); simpa using this
-  have t_wr2 : wr (sp.toNat + 8) = true := by have := ht.writable rfl 2 (by omega); simpa using this
-  have t_lt3 : sp.toNat + 12 < 2 ^ 32 := by have := ht.fits; omega
-  have t_al3 : (sp.toNat + 12) % 4 = 0 := by have := ht.aligned; omega
-  have t_rd3 : rd (sp.toNat + 12) = true := by have := ht.readable 3 (by omega); simpa using this
-  have t_wr3 : wr (sp.toNat + 12) = true := by have := ht.writable rfl 3 (by omega); simpa using this
-  have t_lt4 : sp.toNat + 16 < 2 ^ 32 := by have := ht.fits; omega
-  have t_al4 : (sp.toNat + 16) % 4 = 0 := by have := ht.aligned; omega
-  have t_rd4 : rd (sp.toNat + 16) = true := by have := ht.readable 4 (by omega); simpa using this
-  have t_wr4 : wr (sp.toNat + 16) = true := by have := ht.writable rfl 4 (by omega); simpa using this
-  have t_lt5 : sp.toNat + 20 < 2 ^ 32 := by have := ht.fits; omega
-  have t_al5 : (sp.toNat + 20) % 4 = 0 := by have := ht.aligned; omega
-  have t_rd5 : rd (sp.toNat + 20) = true := by have := ht.readable 5 (by omega); simpa using this
-  have t_wr5 : wr (sp.toNat + 20) = true := by have := ht.writable rfl 5 (by omega); simpa using this
-  have t_lt6 : sp.toNat + 24 < 2 ^ 32 := by have := ht.fits; omega
-  have t_al6 : (sp.toNat + 24) % 4 = 0 := by have := ht.aligned; omega
-  have t_rd6 : rd (sp.toNat + 24) = true := by have := ht.readable 6 (by omega); simpa using this
-  have t_wr6 : wr (sp.toNat + 24) = true := by have := ht.writable rfl 6 (by omega); simpa using this
-  have t_lt7 : sp.toNat + 28 < 2 ^ 32 := by have := ht.fits; omega
-  have t_al7 : (sp.toNat + 28) % 4 = 0 := by have := ht.aligned; omega
-  have t_rd7 : rd (sp.toNat + 28) = true := by have := ht.readable 7 (by omega); simpa using this
-  have t_wr7 : wr (sp.toNat + 28) = true := by have := ht.writable rfl 7 (by omega); simpa using this
-  have t_lt8 : sp.toNat + 32 < 2 ^ 32 := by have := ht.fits; omega
-  have t_al8 : (sp.toNat + 32) % 4 = 0 := by have := ht.aligned; omega
-  have t_rd8 : rd (sp.toNat + 32) = true := by have := ht.readable 8 (by omega); simpa using this
-  have t_wr8 : wr (sp.toNat + 32) = true := by have := ht.writable rfl 8 (by omega); simpa using this
-  have t_lt9 : sp.toNat + 36 < 2 ^ 32 := by have := ht.fits; omega
-  have t_al9 : (sp.toNat + 36) % 4 = 0 := by have := ht.aligned; omega
-  have t_rd9 : rd (sp.toNat + 36) = true := by have := ht.readable 9 (by omega); simpa using this
-  have t_wr9 : wr (sp.toNat + 36) = true := by have := ht.writable rfl 9 (by omega); simpa using this
-  have t_lt10 : sp.toNat + 40 < 2 ^ 32 := by have := ht.fits; omega
-  have t_al10 : (sp.toNat + 40) % 4 = 0 := by have := ht.aligned; omega
-  have t_rd10 : rd (sp.toNat + 40) = true := by have := ht.readable 10 (by omega); simpa using this
-  have t_wr10 : wr (sp.toNat + 40) = true := by have := ht.writable rfl 10 (by omega); simpa using this
-  have t_lt11 : sp.toNat + 44 < 2 ^ 32 := by have := ht.fits; omega
-  have t_al11 : (sp.toNat + 44) % 4 = 0 := by have := ht.aligned; omega
-  have t_rd11 : rd (sp.toNat + 44) = true := by have := ht.readable 11 (by omega); simpa using this
-  have t_wr11 : wr (sp.toNat + 44) = true := by have := ht.writable rfl 11 (by omega); simpa using this
-  have t_lt12 : sp.toNat + 48 < 2 ^ 32 := by have := ht.fits; omega
-  have t_al12 : (sp.toNat + 48) % 4 = 0 := by have := ht.aligned; omega
-  have t_rd12 : rd (sp.toNat + 48) = true := by have := ht.readable 12 (by omega); simpa using this
-  have t_wr12 : wr (sp.toNat + 48) = true := by have := ht.writable rfl 12 (by omega); simpa using this
+  have a_rd : rd (r1.toNat) = true := ha.rd_0 (by decide)
+  have b_lt0 : r2.toNat < 2 ^ 32 := hb.lt_0 (by decide)
+  have b_al0 : (r2.toNat) % 4 = 0 := hb.aligned
+  have b_rd0 : rd (r2.toNat) = true := hb.rd_0 (by decide)
+  have b_lt1 : r2.toNat + 4 < 2 ^ 32 := hb.lt_k 4 (by decide)
+  have b_al1 : (r2.toNat + 4) % 4 = 0 := hb.al_k 4 (by decide)
+  have b_rd1 : rd (r2.toNat + 4) = true := hb.rd_k 4 (by decide) (by decide)
+  have b_lt2 : r2.toNat + 8 < 2 ^ 32 := hb.lt_k 8 (by decide)
+  have b_al2 : (r2.toNat + 8) % 4 = 0 := hb.al_k 8 (by decide)
+  have b_rd2 : rd (r2.toNat + 8) = true := hb.rd_k 8 (by decide) (by decide)
+  have b_lt3 : r2.toNat + 12 < 2 ^ 32 := hb.lt_k 12 (by decide)
+  have b_al3 : (r2.toNat + 12) % 4 = 0 := hb.al_k 12 (by decide)
+  have b_rd3 : rd (r2.toNat + 12) = true := hb.rd_k 12 (by decide) (by decide)
+  have b_lt4 : r2.toNat + 16 < 2 ^ 32 := hb.lt_k 16 (by decide)
+  have b_al4 : (r2.toNat + 16) % 4 = 0 := hb.al_k 16 (by decide)
+  have b_rd4 : rd (r2.toNat + 16) = true := hb.rd_k 16 (by decide) (by decide)
+  have b_lt5 : r2.toNat + 20 < 2 ^ 32 := hb.lt_k 20 (by decide)
+  have b_al5 : (r2.toNat + 20) % 4 = 0 := hb.al_k 20 (by decide)
+  have b_rd5 : rd (r2.toNat + 20) = true := hb.rd_k 20 (by decide) (by decide)
+  have b_lt6 : r2.toNat + 24 < 2 ^ 32 := hb.lt_k 24 (by decide)
+  have b_al6 : (r2.toNat + 24) % 4 = 0 := hb.al_k 24 (by decide)
+  have b_rd6 : rd (r2.toNat + 24) = true := hb.rd_k 24 (by decide) (by decide)
+  have b_lt7 : r2.toNat + 28 < 2 ^ 32 := hb.lt_k 28 (by decide)
+  have b_al7 : (r2.toNat + 28) % 4 = 0 := hb.al_k 28 (by decide)
+  have b_rd7 : rd (r2.toNat + 28) = true := hb.rd_k 28 (by decide) (by decide)
+  have b_lt8 : r2.toNat + 32 < 2 ^ 32 := hb.lt_k 32 (by decide)
+  have b_al8 : (r2.toNat + 32) % 4 = 0 := hb.al_k 32 (by decide)
+  have b_rd8 : rd (r2.toNat + 32) = true := hb.rd_k 32 (by decide) (by decide)
+  have b_lt9 : r2.toNat + 36 < 2 ^ 32 := hb.lt_k 36 (by decide)
+  have b_al9 : (r2.toNat + 36) % 4 = 0 := hb.al_k 36 (by decide)
+  have b_rd9 : rd (r2.toNat + 36) = true := hb.rd_k 36 (by decide) (by decide)
+  have b_lt10 : r2.toNat + 40 < 2 ^ 32 := hb.lt_k 40 (by decide)
+  have b_al10 : (r2.toNat + 40) % 4 = 0 := hb.al_k 40 (by decide)
+  have b_rd10 : rd (r2.toNat + 40) = true := hb.rd_k 40 (by decide) (by decide)
+  have b_lt11 : r2.toNat + 44 < 2 ^ 32 := hb.lt_k 44 (by decide)
+  have b_al11 : (r2.toNat + 44) % 4 = 0 := hb.al_k 44 (by decide)
+  have b_rd11 : rd (r2.toNat + 44) = true := hb.rd_k 44 (by decide) (by decide)
+  have t_lt0 : sp.toNat < 2 ^ 32 := ht.lt_0 (by decide)
+  have t_al0 : (sp.toNat) % 4 = 0 := ht.aligned
+  have t_rd0 : rd (sp.toNat) = true := ht.rd_0 (by decide)
+  have t_wr0 : wr (sp.toNat) = true := ht.wr_0 (by decide)
+  have t_lt1 : sp.toNat + 4 < 2 ^ 32 := ht.lt_k 4 (by decide)
+  have t_al1 : (sp.toNat + 4) % 4 = 0 := ht.al_k 4 (by decide)
+  have t_rd1 : rd (sp.toNat + 4) = true := ht.rd_k 4 (by decide) (by decide)
+  have t_wr1 : wr (sp.toNat + 4) = true := ht.wr_k 4 (by decide) (by decide)
+  have t_lt2 : sp.toNat + 8 < 2 ^ 32 := ht.lt_k 8 (by decide)
+  have t_al2 : (sp.toNat + 8) % 4 = 0 := ht.al_k 8 (by decide)
+  have t_rd2 : rd (sp.toNat + 8) = true := ht.rd_k 8 (by decide) (by decide)
+  have t_wr2 : wr (sp.toNat + 8) = true := ht.wr_k 8 (by decide) (by decide)
+  have t_lt3 : sp.toNat + 12 < 2 ^ 32 := ht.lt_k 12 (by decide)
+  have t_al3 : (sp.toNat + 12) % 4 = 0 := ht.al_k 12 (by decide)
+  have t_rd3 : rd (sp.toNat + 12) = true := ht.rd_k 12 (by decide) (by decide)
+  have t_wr3 : wr (sp.toNat + 12) = true := ht.wr_k 12 (by decide) (by decide)
+  have t_lt4 : sp.toNat + 16 < 2 ^ 32 := ht.lt_k 16 (by decide)
+  have t_al4 : (sp.toNat + 16) % 4 = 0 := ht.al_k 16 (by decide)
+  have t_rd4 : rd (sp.toNat + 16) = true := ht.rd_k 16 (by decide) (by decide)
+  have t_wr4 : wr (sp.toNat + 16) = true := ht.wr_k 16 (by decide) (by decide)
+  have t_lt5 : sp.toNat + 20 < 2 ^ 32 := ht.lt_k 20 (by decide)
+  have t_al5 : (sp.toNat + 20) % 4 = 0 := ht.al_k 20 (by decide)
+  have t_rd5 : rd (sp.toNat + 20) = true := ht.rd_k 20 (by decide) (by decide)
+  have t_wr5 : wr (sp.toNat + 20) = true := ht.wr_k 20 (by decide) (by decide)
+  have t_lt6 : sp.toNat + 24 < 2 ^ 32 := ht.lt_k 24 (by decide)
+  have t_al6 : (sp.toNat + 24) % 4 = 0 := ht.al_k 24 (by decide)
+  have t_rd6 : rd (sp.toNat + 24) = true := ht.rd_k 24 (by decide) (by decide)
+  have t_wr6 : wr (sp.toNat + 24) = true := ht.wr_k 24 (by decide) (by decide)
+  have t_lt7 : sp.toNat + 28 < 2 ^ 32 := ht.lt_k 28 (by decide)
+  have t_al7 : (sp.toNat + 28) % 4 = 0 := ht.al_k 28 (by decide)
+  have t_rd7 : rd (sp.toNat + 28) = true := ht.rd_k 28 (by decide) (by decide)
+  have t_wr7 : wr (sp.toNat + 28) = true := ht.wr_k 28 (by decide) (by decide)
+  have t_lt8 : sp.toNat + 32 < 2 ^ 32 := ht.lt_k 32 (by decide)
+  have t_al8 : (sp.toNat + 32) % 4 = 0 := ht.al_k 32 (by decide)
+  have t_rd8 : rd (sp.toNat + 32) = true := ht.rd_k 32 (by decide) (by decide)
+  have t_wr8 : wr (sp.toNat + 32) = true := ht.wr_k 32 (by decide) (by decide)
+  have t_lt9 : sp.toNat + 36 < 2 ^ 32 := ht.lt_k 36 (by decide)
+  have t_al9 : (sp.toNat + 36) % 4 = 0 := ht.al_k 36 (by decide)
+  have t_rd9 : rd (sp.toNat + 36) = true := ht.rd_k 36 (by decide) (by decide)
+  have t_wr9 : wr (sp.toNat + 36) = true := ht.wr_k 36 (by decide) (by decide)
+  have t_lt10 : sp.toNat + 40 < 2 ^ 32 := ht.lt_k 40 (by decide)
+  have t_al10 : (sp.toNat + 40) % 4 = 0 := ht.al_k 40 (by decide)
+  have t_rd10 : rd (sp.toNat + 40) = true := ht.rd_k 40 (by decide) (by decide)
+  have t_wr10 : wr (sp.toNat + 40) = true := ht.wr_k 40 (by decide) (by decide)
+  have t_lt11 : sp.toNat + 44 < 2 ^ 32 := ht.lt_k 44 (by decide)
+  have t_al11 : (sp.toNat + 44) % 4 = 0 := ht.al_k 44 (by decide)
+  have t_rd11 : rd (sp.toNat + 44) = true := ht.rd_k 44 (by decide) (by decide)
+  have t_wr11 : wr (sp.toNat + 44) = true := ht.wr_k 44 (by decide) (by decide)
+  have t_lt12 : sp.toNat + 48 < 2 ^ 32 := ht.lt_k 48 (by decide)
+  have t_al12 : (sp.toNat + 48) % 4 = 0 := ht.al_k 48 (by decide)
+  have t_rd12 : rd (sp.toNat + 48) = true := ht.rd_k 48 (by decide) (by decide)
+  have t_wr12 : wr (sp.toNat + 48) = true := ht.wr_k 48 (by decide) (by decide)
   replace hdis := Hide.mk hdis
   clear ha hb ht
   obtain ⟨a, ha⟩ : ∃ x, x = m (r1.toNat) := ⟨_, rfl⟩
@@ -208,7 +234,7 @@ theorem mulRow0_run (r0 r1 r2 r3 r4 r5 r6 r7 r8 r9 r10 r11 r12 sp lr : Word) (nf
   · intro k hk
     simp (disch := (clear * - hk; omega)) only [setMem_ne]
   · simp only [limbs32_13, limbs32_twelve, nat_add_add, Nat.reduceAdd, Nat.add_zero, ← ha, ← hb0, ← hb1, ← hb2, ← hb3, ← hb4, ← hb5, ← hb6, ← hb7, ← hb8, ← hb9, ← hb10, ← hb11]
-    simp (disch := t1_disch) only [setMem_eq, setMem_off, setMem_off0, setMem_0off, setMem_off2, setMem_off2_0l, setMem_off2_0r]
+    simp (disch := (clear * -; omega)) only [setMem_eq, setMem_ne]
     have e0 := macMul_spec a b0; rw [← ho0] at e0
     have e1 := macMulC_spec a b1 o0.hi; rw [← ho1] at e1
     have e2 := macMulC_spec a b2 o1.hi; rw [← ho2] at e2
@@ -235,97 +261,97 @@ theorem mulRow_run (io : Nat) (r0 r1 r2 r3 r4 r5 r6 r7 r8 r9 r10 r11 r12 sp lr :
         = ⟨x0, r1, r2, x3, x4, x5, x6, x7, r8, r9, m (r1.toNat + io), r11, r12, sp, lr, n, z, c, v, m', rd, wr, pc + 300, .running, csm⟩ ∧
       (∀ k, ¬(sp.toNat + io ≤ k ∧ k < sp.toNat + io + 52) → m' k = m k) ∧
       val (2 ^ 32) (limbs32 m' (sp.toNat + io) 13) = (m (r1.toNat + io)).toNat * val (2 ^ 32) (limbs32 m r2.toNat 12) + val (2 ^ 32) (limbs32 m (sp.toNat + io) 12) := by
-  have a_lt : r1.toNat + io < 2 ^ 32 := by have := ha.fits; omega
+  have a_lt : r1.toNat + io < 2 ^ 32 := ha.lt_0 (by decide)
   have a_al : (r1.toNat + io) % 4 = 0 := ha.aligned
-  have a_rd : rd (r1.toNat + io) = true := by have := ha.readable 0 (by omega); simpa using this
-  have b_lt0 : r2.toNat < 2 ^ 32 := by have := hb.fits; omega
-  have b_al0 : (r2.toNat) % 4 = 0 := by have := hb.aligned; omega
-  have b_rd0 : rd (r2.toNat) = true := by have := hb.readable 0 (by omega); simpa using this
-  have b_lt1 : r2.toNat + 4 < 2 ^ 32 := by have := hb.fits; omega
-  have b_al1 : (r2.toNat + 4) % 4 = 0 := by have := hb.aligned; omega
-  have b_rd1 : rd (r2.toNat + 4) = true := by have := hb.readable 1 (by omega); simpa using this
-  have b_lt2 : r2.toNat + 8 < 2 ^ 32 := by have := hb.fits; omega
-  have b_al2 : (r2.toNat + 8) % 4 = 0 := by have := hb.aligned; omega
-  have b_rd2 : rd (r2.toNat + 8) = true := by have := hb.readable 2 (by omega); simpa using this
-  have b_lt3 : r2.toNat + 12 < 2 ^ 32 := by have := hb.fits; omega
-  have b_al3 : (r2.toNat + 12) % 4 = 0 := by have := hb.aligned; omega
-  have b_rd3 : rd (r2.toNat + 12) = true := by have := hb.readable 3 (by omega); simpa using this
-  have b_lt4 : r2.toNat + 16 < 2 ^ 32 := by have := hb.fits; omega
-  have b_al4 : (r2.toNat + 16) % 4 = 0 := by have := hb.aligned; omega
-  have b_rd4 : rd (r2.toNat + 16) = true := by have := hb.readable 4 (by omega); simpa using this
-  have b_lt5 : r2.toNat + 20 < 2 ^ 32 := by have := hb.fits; omega
-  have b_al5 : (r2.toNat + 20) % 4 = 0 := by have := hb.aligned; omega
-  have b_rd5 : rd (r2.toNat + 20) = true := by have := hb.readable 5 (by omega); simpa using this
-  have b_lt6 : r2.toNat + 24 < 2 ^ 32 := by have := hb.fits; omega
-  have b_al6 : (r2.toNat + 24) % 4 = 0 := by have := hb.aligned; omega
-  have b_rd6 : rd (r2.toNat + 24) = true := by have := hb.readable 6 (by omega); simpa using this
-  have b_lt7 : r2.toNat + 28 < 2 ^ 32 := by have := hb.fits; omega
-  have b_al7 : (r2.toNat + 28) % 4 = 0 := by have := hb.aligned; omega
-  have b_rd7 : rd (r2.toNat + 28) = true := by have := hb.readable 7 (by omega); simpa using this
-  have b_lt8 : r2.toNat + 32 < 2 ^ 32 := by have := hb.fits; omega
-  have b_al8 : (r2.toNat + 32) % 4 = 0 := by have := hb.aligned; omega
-  have b_rd8 : rd (r2.toNat + 32) = true := by have := hb.readable 8 (by omega); simpa using this
-  have b_lt9 : r2.toNat + 36 < 2 ^ 32 := by have := hb.fits; omega
-  have b_al9 : (r2.toNat + 36) % 4 = 0 := by have := hb.aligned; omega
-  have b_rd9 : rd (r2.toNat + 36) = true := by have := hb.readable 9 (by omega); simpa using this
-  have b_lt10 : r2.toNat + 40 < 2 ^ 32 := by have := hb.fits; omega
-  have b_al10 : (r2.toNat + 40) % 4 = 0 := by have := hb.aligned; omega
-  have b_rd10 : rd (r2.toNat + 40) = true := by have := hb.readable 10 (by omega); simpa using this
-  have b_lt11 : r2.toNat + 44 < 2 ^ 32 := by have := hb.fits; omega
-  have b_al11 : (r2.toNat + 44) % 4 = 0 := by have := hb.aligned; omega
-  have b_rd11 : rd (r2.toNat + 44) = true := by have := hb.readable 11 (by omega); simpa using this
-  have t_lt0 : sp.toNat + io < 2 ^ 32 := by have := ht.fits; omega
-  have t_al0 : (sp.toNat + io) % 4 = 0 := by have := ht.aligned; omega
-  have t_rd0 : rd (sp.toNat + io) = true := by have := ht.readable 0 (by omega); simpa using this
-  have t_wr0 : wr (sp.toNat + io) = true := by have := ht.writable rfl 0 (by omega); simpa using this
-  have t_lt1 : sp.toNat + (io + 4) < 2 ^ 32 := by have := ht.fits; omega
-  have t_al1 : (sp.toNat + (io + 4)) % 4 = 0 := by have := ht.aligned; omega
-  have t_rd1 : rd (sp.toNat + (io + 4)) = true := by have := ht.readable 1 (by omega); rwa [show sp.toNat + io + 4 * 1 = sp.toNat + (io + 4) by omega] at this
-  have t_wr1 : wr (sp.toNat + (io + 4)) = true := by have := ht.writable rfl 1 (by omega); rwa [show sp.toNat + io + 4 * 1 = sp.toNat + (io + 4) by omega] at this
-  have t_lt2 : sp.toNat + (io + 8) < 2 ^ 32 := by have := ht.fits; omega
-  have t_al2 : (sp.toNat + (io + 8)) % 4 = 0 := by have := ht.aligned; omega
-  have t_rd2 : rd (sp.toNat + (io + 8)) = true := by have := ht.readable 2 (by omega); rwa [show sp.toNat + io + 4 * 2 = sp.toNat + (io + 8) by omega] at this
-  have t_wr2 : wr (sp.toNat + (io + 8)) = true := by have := ht.writable rfl 2 (by omega); rwa [show sp.toNat + io + 4 * 2 = sp.toNat + (io + 8) by omega] at this
-  have t_lt3 : sp.toNat + (io + 12) < 2 ^ 32 := by have := ht.fits; omega
-  have t_al3 : (sp.toNat + (io + 12)) % 4 = 0 := by have := ht.aligned; omega
-  have t_rd3 : rd (sp.toNat + (io + 12)) = true := by have := ht.readable 3 (by omega); rwa [show sp.toNat + io + 4 * 3 = sp.toNat + (io + 12) by omega] at this
-  have t_wr3 : wr (sp.toNat + (io + 12)) = true := by have := ht.writable rfl 3 (by omega); rwa [show sp.toNat + io + 4 * 3 = sp.toNat + (io + 12) by omega] at this
-  have t_lt4 : sp.toNat + (io + 16) < 2 ^ 32 := by have := ht.fits; omega
-  have t_al4 : (sp.toNat + (io + 16)) % 4 = 0 := by have := ht.aligned; omega
-  have t_rd4 : rd (sp.toNat + (io + 16)) = true := by have := ht.readable 4 (by omega); rwa [show sp.toNat + io + 4 * 4 = sp.toNat + (io + 16) by omega] at this
-  have t_wr4 : wr (sp.toNat + (io + 16)) = true := by have := ht.writable rfl 4 (by omega); rwa [show sp.toNat + io + 4 * 4 = sp.toNat + (io + 16) by omega] at this
-  have t_lt5 : sp.toNat + (io + 20) < 2 ^ 32 := by have := ht.fits; omega
-  have t_al5 : (sp.toNat + (io + 20)) % 4 = 0 := by have := ht.aligned; omega
-  have t_rd5 : rd (sp.toNat + (io + 20)) = true := by have := ht.readable 5 (by omega); rwa [show sp.toNat + io + 4 * 5 = sp.toNat + (io + 20) by omega] at this
-  have t_wr5 : wr (sp.toNat + (io + 20)) = true := by have := ht.writable rfl 5 (by omega); rwa [show sp.toNat + io + 4 * 5 = sp.toNat + (io + 20) by omega] at this
-  have t_lt6 : sp.toNat + (io + 24) < 2 ^ 32 := by have := ht.fits; omega
-  have t_al6 : (sp.toNat + (io + 24)) % 4 = 0 := by have := ht.aligned; omega
-  have t_rd6 : rd (sp.toNat + (io + 24)) = true := by have := ht.readable 6 (by omega); rwa [show sp.toNat + io + 4 * 6 = sp.toNat + (io + 24) by omega] at this
-  have t_wr6 : wr (sp.toNat + (io + 24)) = true := by have := ht.writable rfl 6 (by omega); rwa [show sp.toNat + io + 4 * 6 = sp.toNat + (io + 24) by omega] at this
-  have t_lt7 : sp.toNat + (io + 28) < 2 ^ 32 := by have := ht.fits; omega
-  have t_al7 : (sp.toNat + (io + 28)) % 4 = 0 := by have := ht.aligned; omega
-  have t_rd7 : rd (sp.toNat + (io + 28)) = true := by have := ht.readable 7 (by omega); rwa [show sp.toNat + io + 4 * 7 = sp.toNat + (io + 28) by omega] at this
-  have t_wr7 : wr (sp.toNat + (io + 28)) = true := by have := ht.writable rfl 7 (by omega); rwa [show sp.toNat + io + 4 * 7 = sp.toNat + (io + 28) by omega] at this
-  have t_lt8 : sp.toNat + (io + 32) < 2 ^ 32 := by have := ht.fits; omega
-  have t_al8 : (sp.toNat + (io + 32)) % 4 = 0 := by have := ht.aligned; omega
-  have t_rd8 : rd (sp.toNat + (io + 32)) = true := by have := ht.readable 8 (by omega); rwa [show sp.toNat + io + 4 * 8 = sp.toNat + (io + 32) by omega] at this
-  have t_wr8 : wr (sp.toNat + (io + 32)) = true := by have := ht.writable rfl 8 (by omega); rwa [show sp.toNat + io + 4 * 8 = sp.toNat + (io + 32) by omega] at this
-  have t_lt9 : sp.toNat + (io + 36) < 2 ^ 32 := by have := ht.fits; omega
-  have t_al9 : (sp.toNat + (io + 36)) % 4 = 0 := by have := ht.aligned; omega
-  have t_rd9 : rd (sp.toNat + (io + 36)) = true := by have := ht.readable 9 (by omega); rwa [show sp.toNat + io + 4 * 9 = sp.toNat + (io + 36) by omega] at this
-  have t_wr9 : wr (sp.toNat + (io + 36)) = true := by have := ht.writable rfl 9 (by omega); rwa [show sp.toNat + io + 4 * 9 = sp.toNat + (io + 36) by omega] at this
-  have t_lt10 : sp.toNat + (io + 40) < 2 ^ 32 := by have := ht.fits; omega
-  have t_al10 : (sp.toNat + (io + 40)) % 4 = 0 := by have := ht.aligned; omega
-  have t_rd10 : rd (sp.toNat + (io + 40)) = true := by have := ht.readable 10 (by omega); rwa [show sp.toNat + io + 4 * 10 = sp.toNat + (io + 40) by omega] at this
-  have t_wr10 : wr (sp.toNat + (io + 40)) = true := by have := ht.writable rfl 10 (by omega); rwa [show sp.toNat + io + 4 * 10 = sp.toNat + (io + 40) by omega] at this
-  have t_lt11 : sp.toNat + (io + 44) < 2 ^ 32 := by have := ht.fits; omega
-  have t_al11 : (sp.toNat + (io + 44)) % 4 = 0 := by have := ht.aligned; omega
-  have t_rd11 : rd (sp.toNat + (io + 44)) = true := by have := ht.readable 11 (by omega); rwa [show sp.toNat + io + 4 * 11 = sp.toNat + (io + 44) by omega] at this
-  have t_wr11 : wr (sp.toNat + (io + 44)) = true := by have := ht.writable rfl 11 (by omega); rwa [show sp.toNat + io + 4 * 11 = sp.toNat + (io + 44) by omega] at this
-  have t_lt12 : sp.toNat + (io + 48) < 2 ^ 32 := by have := ht.fits; omega
-  have t_al12 : (sp.toNat + (io + 48)) % 4 = 0 := by have := ht.aligned; omega
-  have t_rd12 : rd (sp.toNat + (io + 48)) = true := by have := ht.readable 12 (by omega); rwa [show sp.toNat + io + 4 * 12 = sp.toNat + (io + 48) by omega] at this
-  have t_wr12 : wr (sp.toNat + (io + 48)) = true := by have := ht.writable rfl 12 (by omega); rwa [show sp.toNat + io + 4 * 12 = sp.toNat + (io + 48) by omega] at this
+  have a_rd : rd (r1.toNat + io) = true := ha.rd_0 (by decide)
+  have b_lt0 : r2.toNat < 2 ^ 32 := hb.lt_0 (by decide)
+  have b_al0 : (r2.toNat) % 4 = 0 := hb.aligned
+  have b_rd0 : rd (r2.toNat) = true := hb.rd_0 (by decide)
+  have b_lt1 : r2.toNat + 4 < 2 ^ 32 := hb.lt_k 4 (by decide)
+  have b_al1 : (r2.toNat + 4) % 4 = 0 := hb.al_k 4 (by decide)
+  have b_rd1 : rd (r2.toNat + 4) = true := hb.rd_k 4 (by decide) (by decide)
+  have b_lt2 : r2.toNat + 8 < 2 ^ 32 := hb.lt_k 8 (by decide)
+  have b_al2 : (r2.toNat + 8) % 4 = 0 := hb.al_k 8 (by decide)
+  have b_rd2 : rd (r2.toNat + 8) = true := hb.rd_k 8 (by decide) (by decide)
+  have b_lt3 : r2.toNat + 12 < 2 ^ 32 := hb.lt_k 12 (by decide)
+  have b_al3 : (r2.toNat + 12) % 4 = 0 := hb.al_k 12 (by decide)
+  have b_rd3 : rd (r2.toNat + 12) = true := hb.rd_k 12 (by decide) (by decide)
+  have b_lt4 : r2.toNat + 16 < 2 ^ 32 := hb.lt_k 16 (by decide)
+  have b_al4 : (r2.toNat + 16) % 4 = 0 := hb.al_k 16 (by decide)
+  have b_rd4 : rd (r2.toNat + 16) = true := hb.rd_k 16 (by decide) (by decide)
+  have b_lt5 : r2.toNat + 20 < 2 ^ 32 := hb.lt_k 20 (by decide)
+  have b_al5 : (r2.toNat + 20) % 4 = 0 := hb.al_k 20 (by decide)
+  have b_rd5 : rd (r2.toNat + 20) = true := hb.rd_k 20 (by decide) (by decide)
+  have b_lt6 : r2.toNat + 24 < 2 ^ 32 := hb.lt_k 24 (by decide)
+  have b_al6 : (r2.toNat + 24) % 4 = 0 := hb.al_k 24 (by decide)
+  have b_rd6 : rd (r2.toNat + 24) = true := hb.rd_k 24 (by decide) (by decide)
+  have b_lt7 : r2.toNat + 28 < 2 ^ 32 := hb.lt_k 28 (by decide)
+  have b_al7 : (r2.toNat + 28) % 4 = 0 := hb.al_k 28 (by decide)
+  have b_rd7 : rd (r2.toNat + 28) = true := hb.rd_k 28 (by decide) (by decide)
+  have b_lt8 : r2.toNat + 32 < 2 ^ 32 := hb.lt_k 32 (by decide)
+  have b_al8 : (r2.toNat + 32) % 4 = 0 := hb.al_k 32 (by decide)
+  have b_rd8 : rd (r2.toNat + 32) = true := hb.rd_k 32 (by decide) (by decide)
+  have b_lt9 : r2.toNat + 36 < 2 ^ 32 := hb.lt_k 36 (by decide)
+  have b_al9 : (r2.toNat + 36) % 4 = 0 := hb.al_k 36 (by decide)
+  have b_rd9 : rd (r2.toNat + 36) = true := hb.rd_k 36 (by decide) (by decide)
+  have b_lt10 : r2.toNat + 40 < 2 ^ 32 := hb.lt_k 40 (by decide)
+  have b_al10 : (r2.toNat + 40) % 4 = 0 := hb.al_k 40 (by decide)
+  have b_rd10 : rd (r2.toNat + 40) = true := hb.rd_k 40 (by decide) (by decide)
+  have b_lt11 : r2.toNat + 44 < 2 ^ 32 := hb.lt_k 44 (by decide)
+  have b_al11 : (r2.toNat + 44) % 4 = 0 := hb.al_k 44 (by decide)
+  have b_rd11 : rd (r2.toNat + 44) = true := hb.rd_k 44 (by decide) (by decide)
+  have t_lt0 : sp.toNat + io < 2 ^ 32 := ht.lt_0 (by decide)
+  have t_al0 : (sp.toNat + io) % 4 = 0 := ht.aligned
+  have t_rd0 : rd (sp.toNat + io) = true := ht.rd_0 (by decide)
+  have t_wr0 : wr (sp.toNat + io) = true := ht.wr_0 (by decide)
+  have t_lt1 : sp.toNat + (io + 4) < 2 ^ 32 := ht.lt_k2 4 (by decide)
+  have t_al1 : (sp.toNat + (io + 4)) % 4 = 0 := ht.al_k2 4 (by decide)
+  have t_rd1 : rd (sp.toNat + (io + 4)) = true := ht.rd_k2 4 (by decide) (by decide)
+  have t_wr1 : wr (sp.toNat + (io + 4)) = true := ht.wr_k2 4 (by decide) (by decide)
+  have t_lt2 : sp.toNat + (io + 8) < 2 ^ 32 := ht.lt_k2 8 (by decide)
+  have t_al2 : (sp.toNat + (io + 8)) % 4 = 0 := ht.al_k2 8 (by decide)
+  have t_rd2 : rd (sp.toNat + (io + 8)) = true := ht.rd_k2 8 (by decide) (by decide)
+  have t_wr2 : wr (sp.toNat + (io + 8)) = true := ht.wr_k2 8 (by decide) (by decide)
+  have t_lt3 : sp.toNat + (io + 12) < 2 ^ 32 := ht.lt_k2 12 (by decide)
+  have t_al3 : (sp.toNat + (io + 12)) % 4 = 0 := ht.al_k2 12 (by decide)
+  have t_rd3 : rd (sp.toNat + (io + 12)) = true := ht.rd_k2 12 (by decide) (by decide)
+  have t_wr3 : wr (sp.toNat + (io + 12)) = true := ht.wr_k2 12 (by decide) (by decide)
+  have t_lt4 : sp.toNat + (io + 16) < 2 ^ 32 := ht.lt_k2 16 (by decide)
+  have t_al4 : (sp.toNat + (io + 16)) % 4 = 0 := ht.al_k2 16 (by decide)
+  have t_rd4 : rd (sp.toNat + (io + 16)) = true := ht.rd_k2 16 (by decide) (by decide)
+  have t_wr4 : wr (sp.toNat + (io + 16)) = true := ht.wr_k2 16 (by decide) (by decide)
+  have t_lt5 : sp.toNat + (io + 20) < 2 ^ 32 := ht.lt_k2 20 (by decide)
+  have t_al5 : (sp.toNat + (io + 20)) % 4 = 0 := ht.al_k2 20 (by decide)
+  have t_rd5 : rd (sp.toNat + (io + 20)) = true := ht.rd_k2 20 (by decide) (by decide)
+  have t_wr5 : wr (sp.toNat + (io + 20)) = true := ht.wr_k2 20 (by decide) (by decide)
+  have t_lt6 : sp.toNat + (io + 24) < 2 ^ 32 := ht.lt_k2 24 (by decide)
+  have t_al6 : (sp.toNat + (io + 24)) % 4 = 0 := ht.al_k2 24 (by decide)
+  have t_rd6 : rd (sp.toNat + (io + 24)) = true := ht.rd_k2 24 (by decide) (by decide)
+  have t_wr6 : wr (sp.toNat + (io + 24)) = true := ht.wr_k2 24 (by decide) (by decide)
+  have t_lt7 : sp.toNat + (io + 28) < 2 ^ 32 := ht.lt_k2 28 (by decide)
+  have t_al7 : (sp.toNat + (io + 28)) % 4 = 0 := ht.al_k2 28 (by decide)
+  have t_rd7 : rd (sp.toNat + (io + 28)) = true := ht.rd_k2 28 (by decide) (by decide)
+  have t_wr7 : wr (sp.toNat + (io + 28)) = true := ht.wr_k2 28 (by decide) (by decide)
+  have t_lt8 : sp.toNat + (io + 32) < 2 ^ 32 := ht.lt_k2 32 (by decide)
+  have t_al8 : (sp.toNat + (io + 32)) % 4 = 0 := ht.al_k2 32 (by decide)
+  have t_rd8 : rd (sp.toNat + (io + 32)) = true := ht.rd_k2 32 (by decide) (by decide)
+  have t_wr8 : wr (sp.toNat + (io + 32)) = true := ht.wr_k2 32 (by decide) (by decide)
+  have t_lt9 : sp.toNat + (io + 36) < 2 ^ 32 := ht.lt_k2 36 (by decide)
+  have t_al9 : (sp.toNat + (io + 36)) % 4 = 0 := ht.al_k2 36 (by decide)
+  have t_rd9 : rd (sp.toNat + (io + 36)) = true := ht.rd_k2 36 (by decide) (by decide)
+  have t_wr9 : wr (sp.toNat + (io + 36)) = true := ht.wr_k2 36 (by decide) (by decide)
+  have t_lt10 : sp.toNat + (io + 40) < 2 ^ 32 := ht.lt_k2 40 (by decide)
+  have t_al10 : (sp.toNat + (io + 40)) % 4 = 0 := ht.al_k2 40 (by decide)
+  have t_rd10 : rd (sp.toNat + (io + 40)) = true := ht.rd_k2 40 (by decide) (by decide)
+  have t_wr10 : wr (sp.toNat + (io + 40)) = true := ht.wr_k2 40 (by decide) (by decide)
+  have t_lt11 : sp.toNat + (io + 44) < 2 ^ 32 := ht.lt_k2 44 (by decide)
+  have t_al11 : (sp.toNat + (io + 44)) % 4 = 0 := ht.al_k2 44 (by decide)
+  have t_rd11 : rd (sp.toNat + (io + 44)) = true := ht.rd_k2 44 (by decide) (by decide)
+  have t_wr11 : wr (sp.toNat + (io + 44)) = true := ht.wr_k2 44 (by decide) (by decide)
+  have t_lt12 : sp.toNat + (io + 48) < 2 ^ 32 := ht.lt_k2 48 (by decide)
+  have t_al12 : (sp.toNat + (io + 48)) % 4 = 0 := ht.al_k2 48 (by decide)
+  have t_rd12 : rd (sp.toNat + (io + 48)) = true := ht.rd_k2 48 (by decide) (by decide)
+  have t_wr12 : wr (sp.toNat + (io + 48)) = true := ht.wr_k2 48 (by decide) (by decide)
   replace hdis := Hide.mk hdis
   clear ha hb ht
   obtain ⟨a, ha⟩ : ∃ x, x = m (r1.toNat + io) := ⟨_, rfl⟩
@@ -367,13 +393,13 @@ theorem mulRow_run (io : Nat) (r0 r1 r2 r3 r4 r5 r6 r7 r8 r9 r10 r11 r12 sp lr :
   obtain ⟨o9, ho9⟩ : ∃ x, x = macMulAC a b9 d9 o8.hi := ⟨_, rfl⟩
   obtain ⟨o10, ho10⟩ : ∃ x, x = macMulAC a b10 d10 o9.hi := ⟨_, rfl⟩
   obtain ⟨o11, ho11⟩ : ∃ x, x = macMulAC a b11 d11 o10.hi := ⟨_, rfl⟩
-  t1m_sym [Code.mulRow, Code.mulCellA, Code.mulCellB, muladd32_r4_r3, muladdcarry32_r4_r0, muladdcarry32_r4_r3, setMem_off2, setMem_off2_0l, setMem_off2_0r, ← ha, ← hb0, ← hb1, ← hb2, ← hb3, ← hb4, ← hb5, ← hb6, ← hb7, ← hb8, ← hb9, ← hb10, ← hb11, ← hd0, ← hd1, ← hd2, ← hd3, ← hd4, ← hd5, ← hd6, ← hd7, ← hd8, ← hd9, ← hd10, ← hd11, ← ho0, ← ho1, ← ho2, ← ho3, ← ho4, ← ho5, ← ho6, ← ho7, ← ho8, ← ho9, ← ho10, ← ho11] at hfin
+  t1m_sym [Code.mulRow, Code.mulCellA, Code.mulCellB, muladd32_r4_r3, muladdcarry32_r4_r0, muladdcarry32_r4_r3, ← ha, ← hb0, ← hb1, ← hb2, ← hb3, ← hb4, ← hb5, ← hb6, ← hb7, ← hb8, ← hb9, ← hb10, ← hb11, ← hd0, ← hd1, ← hd2, ← hd3, ← hd4, ← hd5, ← hd6, ← hd7, ← hd8, ← hd9, ← hd10, ← hd11, ← ho0, ← ho1, ← ho2, ← ho3, ← ho4, ← ho5, ← ho6, ← ho7, ← ho8, ← ho9, ← ho10, ← ho11] at hfin
   subst hfin
   refine ⟨_, _, _, _, _, _, _, _, _, _, _, rfl, ?_, ?_⟩
   · intro k hk
     simp (disch := (clear * - hk; omega)) only [setMem_ne]
   · simp only [limbs32_13, limbs32_twelve, nat_add_add, Nat.reduceAdd, Nat.add_zero, ← ha, ← hb0, ← hb1, ← hb2, ← hb3, ← hb4, ← hb5, ← hb6, ← hb7, ← hb8, ← hb9, ← hb10, ← hb11, ← hd0, ← hd1, ← hd2, ← hd3, ← hd4, ← hd5, ← hd6, ← hd7, ← hd8, ← hd9, ← hd10, ← hd11]
-    simp (disch := t1_disch) only [setMem_eq, setMem_off, setMem_off0, setMem_0off, setMem_off2, setMem_off2_0l, setMem_off2_0r]
+    simp (disch := (clear * -; omega)) only [setMem_eq, setMem_ne]
     have e0 := macMulA_spec a b0 d0; rw [← ho0] at e0
     have e1 := macMulAC_spec a b1 d1 o0.hi; rw [← ho1] at e1
     have e2 := macMulAC_spec a b2 d2 o1.hi; rw [← ho2] at e2
